@@ -32,7 +32,7 @@ package kernel
 //@ func (chain *Chain) expireCosiAggregators
 //@   property C24
 //@   trustpre ConsensusThreshold -- NodeRep(node) belongs to C10
-//@   requires ChainOK(chain) && AggsOK(chain)
+//@   requires CosiChainOK(chain) && AggsOK(chain)
 //@   modifies chain.CosiAggregators[-], chain.CosiVerifiers[-], ghost bytes_cachequeue, ghost store_errors
 //@   ensures [expired-retried] forall k crypto.Hash :: {old(has(chain.CosiAggregators, k))} old(has(chain.CosiAggregators, k)) &&
 //@       !old(Young(chain.CosiAggregators[k], now)) && !old(Complete(chain, chain.CosiAggregators[k])) ==> !has(chain.CosiAggregators, k) &&
